@@ -123,8 +123,11 @@ func (w *originWalker) anyExpr(e *world.Expr, typ string) {
 		return
 	}
 	switch e.K {
-	case "ref":
+	case "ref", "kw":
+		// a bare word in an expression place is a reference as far as the text goes
 		w.ref(e)
+	case "type":
+		w.may(e)
 	case "paren":
 		w.anyExpr(e.A[0], typ)
 	case "index":
